@@ -199,6 +199,28 @@ pub fn check(plans: &[Plan], recs: &[RunRec]) -> Outcome {
                     if info.time.is_none() {
                         out.stats.inc("reach.no_time_field");
                     }
+                    // informational only (the statement does not require mate distances to be
+                    // exact): does a claimed "mate in M" come with a PV that ends in mate?
+                    if let (Some(m), Some(p)) = (info.mate, &v.pos) {
+                        if m > 0 {
+                            let mut cur = p.clone();
+                            let mut ok = true;
+                            for mv in &info.pv {
+                                match cur.find_uci(mv) {
+                                    Some(x) => cur = cur.make(x),
+                                    None => {
+                                        ok = false;
+                                        break;
+                                    }
+                                }
+                            }
+                            if ok && cur.is_checkmate() && info.pv.len() as i64 == 2 * m - 1 {
+                                out.stats.inc("info.mate_claim_backed_by_pv");
+                            } else {
+                                out.stats.inc("info.mate_claim_not_backed_by_pv");
+                            }
+                        }
+                    }
                     if let Some(p) = &v.pos {
                         if let Err(e) = pv_legal(p, &info.pv) {
                             out.violations.push(Violation::new(
